@@ -160,6 +160,8 @@ type fnCtx struct {
 	lastVisited string
 	prefix string
 	callOf map[string]string
+	aliasOf map[string]Val
+	aliasCell map[*ssa.Alloc]Val
 	freshRefs map[string]bool
 	frozenTag map[string]*types.Map
 	frozenNow map[string]bool
@@ -434,6 +436,7 @@ func (fc *fnCtx) load0(st *state, a *Addr) Val {
 		}
 		t := fc.applySel(fmt.Sprintf("(%s %s)", a.hv, a.ref), a.sel)
 		v := Val{T: t, S: s, Ty: a.typ}
+		fc.typeFacts(st, v)
 		if len(a.sel) == 0 {
 			fc.tagFrozenField(st, v, a.prefix)
 			if s == "V" {
